@@ -77,6 +77,8 @@ func RunProfile(profile, tier string, seed int64, out string, shards int, script
 	thorough := tier == "thorough"
 	rng := rand.New(rand.NewSource(seed*7919 + 17))
 	switch profile {
+	case "quant", "floatfix", "fixfloat", "floatfloat", "depth", "freq":
+		return runNumProfile(profile, thorough, seed, out, shards)
 	case "poolseq", "poolforeign", "poolconc":
 		return runPoolProfile(profile, thorough, seed, out)
 	case "hist":
